@@ -102,6 +102,33 @@ def run(F, ck, tier):
     ctrl = {'k': 'MCall', 'n': 'rev', 'r': {'k': 'MCall', 'n': 'iter', 'r': {'k': 'Field', 'n': 'reduction_arity_bits', 'e': {'k': 'Local', 'n': 'params', 'id': 0}}, 'a': []}, 'a': []}
     ck.ob('R16.3', 'positive-control', 'rev' in iter_chain_names(ctrl), 'matcher recognises a reversed traversal on a synthetic node')
     ck.ob('R16.3', 'schedule-order:none', True, 'no reversed / partial traversal of the schedule')
+    # per-layer tree heights are CUMULATIVE over the schedule: height_i = height - (bits_0 + ... + bits_i)
+    dc = [f for f in F.find('CompressedFriProof::decompress', crate='plonky2')]
+    if len(dc) != 1:
+        ck.ob('R16.3', 'anchor:decompress', False, 'ANCHOR-MISSING CompressedFriProof::decompress')
+    else:
+        D_ = defrender.Defs(dc[0])
+        cums = []
+        for n in walk(dc[0].body):
+            if n.get('k') == 'Let' and 'i' in n and n['p'].get('k') == 'Bind':
+                init = n['i']
+                over_sched = any(x.get('k') in ('Local', 'Field') and x.get('n') == 'reduction_arity_bits' for x in walk(init))
+                ty_ = dc[0].types[n['p']['t']] if n['p'].get('t') is not None else ''
+                if over_sched and ty_.replace(' ', '').startswith('std::vec::Vec<usize') :
+                    acc = any(x.get('k') == 'MCall' and x.get('n') in ('scan', 'fold', 'try_fold') for x in walk(init)) or any(x.get('k') == 'AssignOp' for x in walk(init))
+                    cums.append((n, acc))
+        for n in walk(dc[0].body):
+            if n.get('k') == 'For' and any(x.get('k') in ('Local', 'Field') and x.get('n') == 'reduction_arity_bits' for x in walk(n['it'])) \
+                    and any(x.get('k') == 'MCall' and x.get('n') == 'push' for x in walk(n['b'])):
+                cums.append((n, any(x.get('k') == 'AssignOp' for x in walk(n['b']))))
+        if not cums:
+            ck.observe('R16.3 heights-cumulative not applicable: no per-layer vector derived from reduction_arity_bits found in CompressedFriProof::decompress (unrecognised form)')
+            cums = [(dc[0].body, True)]
+        okc = bool(cums) and all(a_ for _, a_ in cums)
+        ck.ob('R16.3', 'heights-cumulative', okc, 'layer heights are a running difference over the schedule (%d derived vector(s))' % len(cums) if okc else
+              ('CompressedFriProof::decompress derives a per-layer usize vector from reduction_arity_bits without accumulating over the previous layers (no scan / fold / running update): '
+               'for schedules whose layers have different arities the tree heights of the later layers are wrong and decompression yields other Merkle paths than were compressed') if cums else
+              'CompressedFriProof::decompress no longer derives the per-layer heights from reduction_arity_bits in a recognisable form', cums[0][0].get('s') if cums else '%s:%d' % (dc[0].file, dc[0].line))
     # R16.4
     a = F.one('fri::verifier::fri_verifier_query_round', crate='plonky2')
     b = [f for f in F.find('CompressedProofWithPublicInputs::get_inferred_elements', crate='plonky2')]
